@@ -50,10 +50,38 @@ def float_array(a):
     return np.array(a, np.float64) if a is not None else np.array(np.nan)
 
 
-def cal_hook(cal, sync_time=1600000000.0, first_timestamp=123.0, int_time=2.0):
+L2_IMAGE_STREAM = 'continuum_image'
+L2_TARGET = 'tgt'
+L2_STREAM = L2_IMAGE_STREAM + '_' + L2_TARGET + '_selfcal'
+
+
+def l2_hook(cal2, **kw):
+    """A self-calibration ("l2") stream: an archived stream of type sdp.continuum_image with one imaged target whose
+    <stream>_<target>_selfcal namespace holds the stream attributes and the product sensors of `cal2` (same layout as
+    `cal`).  build_v4 must be called with archived_override=[stream, 'cal', L2_IMAGE_STREAM]."""
+    inner = cal_hook(cal2, cal_stream=L2_STREAM, stream_type=None, **kw)
+
     def hook(ts, cbid, stream):
-        view = ts.view('cal')
-        view['stream_type'] = 'sdp.cal'
+        view = ts.view(L2_IMAGE_STREAM)
+        view['stream_type'] = 'sdp.continuum_image'
+        view['targets'] = {'T, radec, 0:00:00, -30:00:00': L2_TARGET}
+        inner(ts, cbid, stream)
+    return hook
+
+
+def hooks(*hs):
+    def hook(ts, cbid, stream):
+        for h in hs:
+            h(ts, cbid, stream)
+    return hook
+
+
+def cal_hook(cal, sync_time=1600000000.0, first_timestamp=123.0, int_time=2.0, cal_stream='cal',
+             stream_type='sdp.cal'):
+    def hook(ts, cbid, stream):
+        view = ts.view(cal_stream)
+        if stream_type is not None:
+            view['stream_type'] = stream_type
         view['antlist'] = list(cal['antlist'])
         view['pol_ordering'] = list(cal['pol_ordering'])
         view['center_freq'] = float(cal['center_freq'])
@@ -61,7 +89,7 @@ def cal_hook(cal, sync_time=1600000000.0, first_timestamp=123.0, int_time=2.0):
         view['n_chans'] = int(cal['n_chans'])
         for ptype, n_parts in cal.get('parts', {}).items():
             view['product_%s_parts' % ptype] = int(n_parts)
-        cb = ts.view(ts.join(cbid, 'cal'))
+        cb = ts.view(ts.join(cbid, cal_stream))
         t0 = sync_time + first_timestamp
         for ptype, events in cal['products'].items():
             for dump, arr in events:
